@@ -82,10 +82,14 @@ def h_de(L, T, parts, kind):
 
 def h_nonstring(L, T, kind):
     I = L.I
-    js = {'u64': b'12', 'i64': b'-3', 'bool': b'true', 'unit': b'null', 'seq': b'["pkg:t/n"]', 'map': b'{"a":1}', 'f64': b'1.5'}[kind]
+    js = {'u64': b'12', 'i64': b'-3', 'bool': b'true', 'unit': b'null', 'seq': b'["pkg:t/n"]', 'map': b'{"a":1}', 'f64': b'1.5',
+          'bytes': b'[112,107,103,58,110,112,109,47,110]'}[kind]
     req = {'op': 'serde', 'T': KINDS[T][1], 'json': SymStr(list(js))}
     L.expect_native(req, {'is_json_string': False})
-    de = ModelDeserializer(kind, None)
+    if kind == 'bytes':
+        req = {'op': 'serde', 'T': KINDS[T][1], 'value': {'kind': 'bytes', 'payload': SymStr(list(b'pkg:npm/n'))}}
+        L.expect_native(req, {'de': {}, 'value_kind': 'bytes'})
+    de = ModelDeserializer(kind, list(b'pkg:npm/n') if kind == 'bytes' else None)
     r = I.call('<GenericPurl<%s> as Deserialize<\'_>>::deserialize::<ModelDeserializer>' % tytext(T), [de])
     if r.variant != 'Err':
         L.fail('a %s value deserialises to a PURL' % kind)
@@ -113,7 +117,7 @@ def queries(tier):
                     continue
                 qs.append(Query('%s deserialize(%s) %s' % (T, kind, show_template(parts)), h_de, {'T': T, 'parts': parts, 'kind': kind},
                                 bound='string value %s handed to the visitor as %s' % (show_template(parts), kind), prog='serde'))
-        for kind in ('u64', 'i64', 'bool', 'unit', 'seq', 'map', 'f64'):
+        for kind in ('u64', 'i64', 'bool', 'unit', 'seq', 'map', 'f64', 'bytes'):
             qs.append(Query('%s deserialize non-string %s' % (T, kind), h_nonstring, {'T': T, 'kind': kind}, bound='a %s value of the serde data model' % kind, prog='serde'))
     return qs
 
@@ -126,6 +130,8 @@ def confirm(v, resp):
     if 'panic' in resp:
         return 'panicked: %s' % resp['panic']
     de = resp.get('de', {})
+    if resp.get('value_kind') == 'bytes':
+        return 'a bytes value deserialises to a PURL' if 'ok' in de else None
     if 'ok' in de:
         if resp.get('is_json_string') is False:
             return 'a non-string JSON value deserialises to a PURL'
